@@ -64,6 +64,9 @@ def specs():
     S["round"] = dict(params=[("k1", None)], vars=[("x", None)], reactions=[("v1", R.round_law, ["x", "k1"], {"x": -1})])
     S["np_rint"] = dict(params=[("k1", None)], vars=[("x", None)], reactions=[("v1", R.nprint_law, ["x", "k1"], {"x": -1})])
     S["ceil"] = dict(params=[("k1", None)], vars=[("x", None)], reactions=[("v1", R.ceil_law, ["x", "k1"], {"x": -1})])
+    S["np_log10"] = dict(params=[("k1", None)], vars=[("x", None)], reactions=[("v1", R.nplog10_law, ["x", "k1"], {"x": -1})])
+    S["log_with_base"] = dict(params=[("k1", None)], vars=[("x", None)], reactions=[("v1", R.logbase_law, ["x", "k1"], {"x": -1})])
+    S["remainder"] = dict(params=[("k1", None)], vars=[("x", None), ("y", None)], reactions=[("v1", R.remainder_law, ["x", "y", "k1"], {"x": -1, "y": 1})])
     S["abs"] = dict(params=[("k1", None)], vars=[("x", None)], reactions=[("v1", R.abs_law, ["x", "k1"], {"x": -1})])
     S["minmax"] = dict(params=[("k1", None)], vars=[("x", None), ("y", None)], reactions=[("v1", R.minmax_law, ["x", "y", "k1"], {"x": -1, "y": 1})])
     S["helper_call"] = dict(params=[("k1", None)], vars=[("x", None)], reactions=[("v1", R.calls_helper, ["x", "k1"], {"x": -1})])
